@@ -1074,3 +1074,107 @@ Qed.
 Lemma req_persisted_http10 s : p_version s = 0 ->
   req_persisted s = hdr_has (bz "connection") (bz "keep-alive") (p_headers s).
 Proof. intros H. unfold req_persisted. rewrite H. reflexivity. Qed.
+
+(* ------------------------------------------------------------------ *)
+(* what else int(x, 16) -- hence parseChunk -- accepts as a chunk size  *)
+(* ------------------------------------------------------------------ *)
+(* optional 0x / 0X prefix, optionally followed by one underscore *)
+Definition hex_prefix (x : Z) (us : bool) : bytes := 48 :: x :: (if us then [95] else []).
+
+Lemma py_int16_tail ds : ds <> [] -> digits_ok 16 ds = true ->
+  digits_top 16 (map dchar ds) = Some (dval 16 ds 0).
+Proof.
+  intros Hne Hok. destruct ds as [|d ds]; [congruence|].
+  pose proof (digits_ok_in 16 (d :: ds) d Hok (or_introl eq_refl)) as Hd.
+  cbn [digits_ok forallb] in Hok. apply andb_true_iff in Hok. destruct Hok as [_ Hds].
+  cbn [map digits_top]. rewrite (digit_val_dchar 16) by (try right; try reflexivity; exact Hd).
+  rewrite (digits_val_map 16) by (try right; try reflexivity; exact Hds). reflexivity.
+Qed.
+
+Lemma py_int16_prefixed x us ds : x = 120 \/ x = 88 -> ds <> [] -> digits_ok 16 ds = true ->
+  len ds <= 4300 -> py_int 16 (hex_prefix x us ++ num ds) = Some (dval 16 ds 0).
+Proof.
+  intros Hx Hne Hok Hlen. unfold py_int.
+  assert (W : no_ws is_ws_int (hex_prefix x us ++ num ds) = true).
+  { unfold no_ws. rewrite forallb_app. fold (no_ws is_ws_int (num ds)).
+    unfold num. rewrite (digits_no_ws 16) by (try right; try reflexivity; exact Hok).
+    destruct Hx; subst x; destruct us; reflexivity. }
+  rewrite strip_no_ws by exact W.
+  destruct ds as [|d ds]; [congruence|].
+  pose proof (digits_ok_in 16 (d :: ds) d Hok (or_introl eq_refl)) as Hd.
+  pose proof (dchar_range 16 d (or_intror eq_refl) Hd) as R.
+  assert (U : (dchar d =? 95) = false) by (apply Z.eqb_neq; lia).
+  destruct Hx; subst x; destruct us; unfold hex_prefix; cbn [app num map];
+    cbn [Z.eqb Pos.eqb andb orb]; cbv beta iota zeta; cbn [Z.eqb Pos.eqb andb orb];
+    try rewrite U; change (dchar d :: map dchar ds) with (map dchar (d :: ds));
+    rewrite (py_int16_tail (d :: ds)) by assumption; reflexivity.
+Qed.
+
+Lemma strip_padded ws pre core post : forallb ws pre = true -> forallb ws post = true ->
+  core <> [] -> no_ws ws core = true -> strip ws (pre ++ core ++ post) = core.
+Proof.
+  intros Hpre Hpost Hne Hc. unfold strip. rewrite lstrip_all by exact Hpre.
+  assert (L : lstrip ws (core ++ post) = core ++ post).
+  { destruct core as [|c t]; [congruence|]. cbn [app]. apply lstrip_head.
+    cbn in Hc. apply andb_true_iff in Hc. destruct Hc as [Hc _]. apply negb_true_iff in Hc. exact Hc. }
+  rewrite L. rewrite rstrip_all by exact Hpost. apply rstrip_no_ws. exact Hc.
+Qed.
+
+Definition no_semi (b : bytes) : bool := forallb (fun c => negb (c =? 59)) b.
+
+Lemma ws_b_no_semi p : forallb is_ws_b p = true -> no_semi p = true.
+Proof.
+  unfold no_semi. rewrite !forallb_forall. intros H x Hx. specialize (H x Hx).
+  unfold is_ws_b in H. apply negb_true_iff. apply Z.eqb_neq. intros ->. discriminate.
+Qed.
+
+(* the size field of a chunk size line may be padded with white space and carry a 0x / 0X
+   prefix (optionally followed by one underscore): parseChunk reads the same size and extensions *)
+Lemma parse_chunk_size_lenient pre post (pfx : option (Z * bool)) ds es :
+  forallb is_ws_b pre = true -> forallb is_ws_b post = true ->
+  match pfx with Some (x, _) => x = 120 \/ x = 88 | None => True end ->
+  ds <> [] -> digits_ok 16 ds = true -> len ds <= 4300 -> forallb ext_ok es = true ->
+  parse_chunk_size (pre ++ (match pfx with Some (x, us) => hex_prefix x us | None => [] end ++ num ds)
+                        ++ post ++ render_exts es)
+  = Some (dval 16 ds 0, exts_map es).
+Proof.
+  intros Hpre Hpost Hpfx Hne Hok Hlen Hes.
+  set (core := match pfx with Some (x, us) => hex_prefix x us | None => [] end ++ num ds).
+  destruct (num_props ds Hok) as [_ [Hsc [Hws Hasc]]].
+  assert (Cne : core <> []).
+  { unfold core. destruct pfx as [[x us]|]; [discriminate|]. destruct ds; [congruence|discriminate]. }
+  assert (Csc : no_semi core = true).
+  { unfold core, no_semi. rewrite forallb_app. fold (no_semi (num ds)). unfold no_semi. rewrite Hsc.
+    destruct pfx as [[x us]|]; [|reflexivity]. destruct Hpfx; subst x; destruct us; reflexivity. }
+  assert (Cws : no_ws is_ws_b core = true).
+  { unfold core, no_ws. rewrite forallb_app. fold (no_ws is_ws_b (num ds)). rewrite Hws.
+    destruct pfx as [[x us]|]; [|reflexivity]. destruct Hpfx; subst x; destruct us; reflexivity. }
+  assert (Casc : existsb (fun c => 127 <? c) core = false).
+  { unfold core. rewrite existsb_app, Hasc.
+    destruct pfx as [[x us]|]; [|reflexivity]. destruct Hpfx; subst x; destruct us; reflexivity. }
+  assert (Cint : py_int 16 core = Some (dval 16 ds 0)).
+  { unfold core. destruct pfx as [[x us]|].
+    - apply py_int16_prefixed; assumption.
+    - cbn [app]. unfold num. apply py_int_digits; [right; reflexivity|assumption..]. }
+  pose proof (dval_nonneg 16 (or_intror eq_refl) ds 0 Hok ltac:(lia)) as P.
+  assert (Nn : (dval 16 ds 0 <? 0) = false) by (apply Z.ltb_ge; exact P).
+  assert (S1 : no_semi (pre ++ core ++ post) = true).
+  { unfold no_semi in *. rewrite !forallb_app. fold (no_semi pre) (no_semi post).
+    rewrite (ws_b_no_semi _ Hpre), Csc, (ws_b_no_semi _ Hpost). reflexivity. }
+  unfold parse_chunk_size, part2.
+  destruct es as [|e es].
+  - cbn [render_exts flat_map]. rewrite !app_nil_r.
+    rewrite partition_at_absent by exact S1.
+    rewrite strip_padded by assumption. rewrite Casc, Cint, Nn. reflexivity.
+  - cbn [forallb] in Hes. apply andb_true_iff in Hes. destruct Hes as [He Hes].
+    cbn [render_exts flat_map app]. fold (render_exts es).
+    replace (pre ++ core ++ post ++ 59 :: ext_piece e ++ render_exts es)
+      with ((pre ++ core ++ post) ++ 59 :: ext_piece e ++ render_exts es) by (rewrite <- !app_assoc; reflexivity).
+    rewrite partition_at_app by exact S1.
+    rewrite strip_padded by assumption. rewrite Casc, Cint, Nn.
+    destruct (ext_piece_props e He) as [_ [_ Pn]].
+    assert (Nx : is_nil (ext_piece e ++ render_exts es) = false) by (destruct (ext_piece e); [discriminate|reflexivity]).
+    rewrite Nx. rewrite split_exts by assumption.
+    change (ext_piece e :: map ext_piece es) with (map ext_piece (e :: es)).
+    rewrite fold_parse_exts by (cbn [forallb]; rewrite He, Hes; reflexivity). reflexivity.
+Qed.
